@@ -270,6 +270,7 @@ Definition parts_enc (k : string) : list string :=
 Definition response_ref_fields : list field :=
   [mkField "Description" "description" true false false TStr;
    mkField "Schema" "schema" true false false (TPtr (TNamed "Schema"));
+   mkField "Headers" "headers" true false false (TMap (TNamed "Header"));
    mkField "Examples" "examples" true false false (TMap TAny)].
 Definition secscheme_plain_fields : list field :=
   [mkField "Description" "description" true false false TStr; mkField "Type" "type" false false false TStr;
